@@ -132,6 +132,10 @@ static void run_script(rng_t *r,H *h,H *h2,int nops,size_t nbytes,const char *de
     ogg_int64_t T=ov_pcm_total(vf,-1); double D=ov_time_total(vf,-1); if(!(D>=0)) D=0;
     ctx_mark("%s",opname[o]);
     dirty_stack(i);      /* whatever an earlier call left on the stack must not matter: all-ones, zero and 0x7f patterns in turn */
+    /* round 8: now and then the source itself misbehaves once during the call (a read error, a short or empty read, a refused seek or tell) - the error exits of
+       every entry point are then taken with whatever the script left on the stack and in the handle; safety, return domain and termination are judged as always */
+    int armed=0; if(rng_chance(r,0.05)){ int nk=(int)rng_range(r,1,F_NKINDS-1); long base= nk==F_SEEK_FAIL? h->ms.n_seek : nk==F_TELL_FAIL? h->ms.n_tell : h->ms.n_read;
+      memsrc_fault(&h->ms,nk,base+rng_range(r,0,2),0); armed=1; }
     if(vh_trace) fprintf(stderr,"op %d %s | state %d link %d pcm_offset %lld raw %lld\n",i,opname[o],vf->ready_state,vf->current_link,(long long)vf->pcm_offset,(long long)vf->offset); if(vh_trace) fprintf(stderr,"   os: body_fill %ld body_returned %ld lacing_fill %ld lacing_returned %ld lacing_packet %ld serial %ld\n",vf->os.body_fill,vf->os.body_returned,vf->os.lacing_fill,vf->os.lacing_returned,vf->os.lacing_packet,vf->os.serialno);
     switch(o){
     case 0: ret=ov_read_float(vf,&pcm,(int)(rng_chance(r,0.1)?wild_i64(r,5000):rng_range(r,1,5000)),rng_chance(r,0.2)?NULL:&bs);
@@ -164,6 +168,7 @@ static void run_script(rng_t *r,H *h,H *h2,int nops,size_t nbytes,const char *de
     default: ret=ov_crosslap(vf,vf); break;
     }
     res_eval(1);
+    if(armed){ res_count("script_calls_with_a_one_shot_callback_fault_armed",1); if(h->ms.f_fired) res_count("script_calls_during_which_the_fault_fired",1); memsrc_clear_fault(&h->ms); }
     if(!code_ok(ret)) res_viol("C03","return-domain","%s returned %ld: %s",opname[o],ret,desc);
     if(h->ms.n_close) { res_viol("C03","closed-behind-callers-back","%s: close callback ran: %s",opname[o],desc); break; }
     res_count(ret<0?"calls_failed":"calls_ok",1);
@@ -332,6 +337,7 @@ static void case_c12(const drvargs_t *a,long id){
   int scn=(int)(id%NSCN); int skind=(int)((id/NSCN)%4);
   chaindesc_t cd; buf_t s; buf_init(&s); char desc[600];
   ctx_mark("build");
+  vh_mux_header_style=(int)((id/(NSCN*4))%3);    /* header pages: 2 per link / 3 per link / many small continued ones (round 8) */
   gen_chain(&r,skind==0?1:3,a->thorough?9000:5000,GC_ALLOW_EMPTY,&cd);
   if(skind==1){ cd.nlinks=3; for(int i=0;i<3;i++){ if(!cd.cfg[i].nsamples) cd.cfg[i].nsamples=1500+i; } }
   if(skind==2){ cd.nlinks=VH_MIN(cd.nlinks,2); for(int i=0;i<cd.nlinks;i++){ cd.policy[i]=PAGE_FLUSH_EACH; if(cd.cfg[i].nsamples>3000) cd.cfg[i].nsamples=3000; } }
@@ -346,6 +352,7 @@ static void case_c12(const drvargs_t *a,long id){
   else
   if(build_chain(&cd,&s,NULL)){ res_sample("encoder refused"); res_end(); buf_free(&s); return; }
   refdec_t F; if(ref_decode(s.p,s.n,0,&F)){ res_viol("C12","harness:reference-decode-failed","%s: %s",F.err,desc); ref_free(&F); res_end(); buf_free(&s); return; }
+  res_count(vh_mux_header_style==0?"cases_with_two_header_pages_per_link":vh_mux_header_style==1?"cases_with_one_header_packet_per_page":"cases_with_headers_over_many_continued_pages",1);
   rng_t rs; rng_seed(&rs,a->seed,121,(uint64_t)id);
   scn_t S; S.scn=scn; S.target= F.total>0?(ogg_int64_t)rng_range(&rs,0,(long)F.total):0; if(rng_chance(&rs,0.3)) S.target=F.total; if(rng_chance(&rs,0.2)&&F.nlinks>1) S.target=F.l[F.nlinks-1].start;
   double dur=0; for(int i=0;i<F.nlinks;i++) dur+=(double)F.l[i].len/F.l[i].rate; S.ttarget=rng_unit(&rs)*dur; S.rawtarget=rng_range(&rs,0,(long)s.n);
@@ -443,6 +450,7 @@ static void case_c12(const drvargs_t *a,long id){
 out:
   res_count("faulted_runs",nruns); res_count("runs_reporting_error",nerr); res_count("recovery_probes_passed",nrecov);
   res_sample("%s: K_open r/s/t %ld/%ld/%ld, K_total %ld/%ld/%ld, %ld faulted runs",desc,Kopen[0],Kopen[1],Kopen[2],Kall[0],Kall[1],Kall[2],nruns);
+  vh_mux_header_style=0;
   ref_free(&F); buf_free(&s); res_end();
 }
 
